@@ -4,5 +4,15 @@ from specs import restore, snapbody
 LEVEL = 'proof'
 UNITS = [restore.download_chunk_unit('C04', restore.c04_download_chunk_post('C04')),
          snapbody.download_snapshot_unit('C04'), snapbody.decrypt_body_unit('C04')]
-TRUSTED = []
-ASSUMPTIONS = []
+BOUNDED = []
+TRUSTED = [
+    'vf symbolic executor (/verif/vf): encoding of the Python subset (DESIGN 2.2)',
+    'z3 5.1 (API + z3-new CLI), cvc5 1.0.3 (strings)',
+]
+ASSUMPTIONS = ['A-aead: a successful AEAD decryption under key k means the ciphertext is ENC(plaintext, k, nonce)', 'A-collision: H and MAC injective on compared values', 'backend.download_stream(name, stream) leaves B[name] in the stream or raises', 'honest ciphertexts under KDF(shared, ctx=d) carry a plaintext hashing to d (writer contract C14.chunk.body)', 'snapshot cache path: see C18']
+MANIFEST = {
+    'text': 'Deductive proof that every buffer handed to a file writer is authentic for the digest the snapshot references (hash equality, or AEAD under the digest-derived key), that the key and location are bound to that digest, that snapshot bodies are verified against the name of the very path loaded, and that a failed table decryption is never swallowed.',
+    'note': 'Trusted: vf engine, SMT solvers; cryptographic strength is assumed (uninterpreted H/ENC/DEC/KDF/MAC with A-aead, A-collision).',
+    'technique': 'contract-based deductive verification: sidecar contracts + loop invariants on the real functions, VCs by symbolic execution of the AST, discharged by z3/cvc5',
+    'design_ref': 'DESIGN.md 6/C04',
+}
